@@ -905,3 +905,6 @@ def oracle(c, o):
 
 def classify(c, o, failure, disagrees):
     return None
+
+# added with seeded rounds 6-7 (DESIGN 8.6)
+RULE = RULE + '; sliver triangles (height/base 2^-14..2^-26: an exact dyadic axis-aligned family and a full-mantissa general-position family) in the barycentric cases'
